@@ -21,6 +21,10 @@ type Ctl struct {
 	FailAt int
 	Calls  int
 	Fired  int
+	// FailClose: Close fails before anything buffered was flushed (the underlying writer is not closed at all),
+	// which is what a failing final flush looks like to the caller
+	FailClose bool
+	OnFire    func()
 }
 
 func NewCtl() *Ctl { return &Ctl{FailAt: -1} }
@@ -29,10 +33,17 @@ func (c *Ctl) shouldFail() bool {
 	call := c.Calls
 	c.Calls++
 	if c.FailNext || (c.FailAt >= 0 && call == c.FailAt) || (c.Sticky && c.Fired > 0) {
-		c.Fired++
+		c.fire()
 		return true
 	}
 	return false
+}
+
+func (c *Ctl) fire() {
+	c.Fired++
+	if c.OnFire != nil {
+		c.OnFire()
+	}
 }
 
 type Data struct {
@@ -41,7 +52,13 @@ type Data struct {
 }
 
 func (f *Data) Open() error          { return f.W.Open() }
-func (f *Data) Close() error         { return f.W.Close() }
+func (f *Data) Close() error {
+	if f.C.FailClose {
+		f.C.fire()
+		return ErrInjected
+	}
+	return f.W.Close()
+}
 func (f *Data) Size() uint64         { return f.W.Size() }
 func (f *Data) Seek(o uint64) error  { return f.W.Seek(o) }
 func (f *Data) Write(r []byte) (uint64, error) {
@@ -63,7 +80,13 @@ type Index struct {
 }
 
 func (f *Index) Open() error  { return f.W.Open() }
-func (f *Index) Close() error { return f.W.Close() }
+func (f *Index) Close() error {
+	if f.C.FailClose {
+		f.C.fire()
+		return ErrInjected
+	}
+	return f.W.Close()
+}
 func (f *Index) Size() uint64 { return f.W.Size() }
 func (f *Index) Write(m proto.Message) (uint64, error) {
 	if f.C.shouldFail() {
